@@ -56,6 +56,42 @@ makes it absolute / leave the model directory:
   * ``percent``: a percent-escape-looking segment (``w%20x.bin``: not an escape, just characters);
   * ``deep``: several directory levels.
 
+**Carriers that say almost nothing** (``sparse_carriers``).  The shared generator toggles ~75 features
+independently with probability >= 0.5 each, so a carrier nearly always has *several* of its optional
+fields populated at once, and some combinations never occur at all (an entry of a ``value_info`` list
+always carries a type).  Code that asks "is there anything worth keeping here?" is only exercised by
+carriers where exactly ONE thing is worth keeping.  With this feature a site (each carrier drawn
+independently with a per-case probability of 0.3 / 0.6 / 1.0) is built from the fields the format
+requires plus AT MOST ONE optional field:
+
+  * ``value_info``: name + exactly one of doc string / metadata (IR >= 10) / type in a ``value_info``
+    list of a graph or function - the entry names a node output or function input that exists, so canon
+    N4 keeps it; name + at most one of them for a graph input / output / stand-alone entry; the bare
+    tensor type + at most one of doc string / metadata for an entry of an initializer;
+  * ``type``: a tensor (rarely sparse-tensor) leaf with ``elem_type`` and one of: nothing, a denotation,
+    a rank-0 shape, a single dimension that has only a value / only a parameter / only a denotation /
+    nothing; or one sequence / optional wrapper around such a leaf with the denotation on the wrapper
+    only or on the element only;
+  * ``tensor``: data type + payload (typed or raw storage; no storage field at all when it has no
+    elements) + one of: nothing (an unnamed scalar), one dimension, a doc string, metadata (IR >= 10);
+    the name only where the site requires one;
+  * ``attribute``: name + type + the zero / empty value of its kind (0, 0.0, b"", no list elements, one
+    element for message lists), rarely a doc string;
+  * ``node``: operator + one output + one of: nothing, name, custom domain, doc string, metadata, one
+    input, one attribute, one reference attribute (inside a function with attributes);
+  * ``graph``: name + (no node: the output is the input | one node without inputs | one node fed by the
+    input) + one of: nothing, doc string, metadata, one initializer, one value_info entry (for the
+    output of a first node that a second consumes), one quantization annotation (IR >= 5);
+  * ``function``: id + opset import + one node + one output + one of: nothing, doc string, metadata,
+    one input, one attribute name, one attribute default, one value_info entry;
+  * ``model``: IR version + graph + opset imports + one of: nothing, producer name, producer version,
+    domain, model version, doc string, metadata, one function, one device configuration.
+
+  Nested carriers go through the same per-site draw, so with probability 1.0 a whole message is sparse
+  at every level.  A stand-alone TypeProto / ValueInfoProto type that has a denotation but no value case
+  is generated rarely and is REPORT-ONLY (``report_only`` is set): the ONNX checker rejects such a
+  type and the statement is silent on it.
+
 Nothing here imports ``onnx_ir``.
 """
 
@@ -94,7 +130,8 @@ _NON_ASCII = ("caf\u00e9", "cafe\u0301", "\u65e5\u672c", "\u00c5", "A\u030a")  #
 
 class ProtoGenC02(gp.ProtoGen):
     def __init__(self, rng: random.Random, features: Iterable[str] | None = None, *,
-                 force: Iterable[str] = (), extra_force: Iterable[str] = (), p_extra: float = 0.6, **kw) -> None:
+                 force: Iterable[str] = (), extra_force: Iterable[str] = (), p_extra: float = 0.6, p_sparse: float = 0.35,
+                 **kw) -> None:
         super().__init__(rng, features, force=force, **kw)
         extra_force = set(extra_force)
         for f in EXTRA_FEATURES:  # fixed order: determinism
@@ -103,6 +140,13 @@ class ProtoGenC02(gp.ProtoGen):
                 continue
             if f in extra_force or draw < p_extra:
                 self.enabled.add(f)
+        # carriers that say almost nothing: case-level switch, then one site probability per case
+        draw, level = rng.random(), rng.random()
+        if "sparse_carriers" in extra_force or draw < p_sparse:
+            self.enabled.add("sparse_carriers")
+        self._sparse_p = 1.0 if level < 0.3 else (0.6 if level < 0.65 else 0.3)
+        #: set by ``build`` when the proto contains a construct the statement is silent on
+        self.report_only: str | None = None
         self.forced |= extra_force
         # (domain, name, overload, [value names]) of the functions generated so far
         self._fn_values: list[tuple[str, str, str, list[str]]] = []
@@ -142,7 +186,10 @@ class ProtoGenC02(gp.ProtoGen):
         saved = self._building_function
         self._building_function = True
         try:
-            info = super()._function_into(f, domain, name, overload)
+            if self._sparse("function"):
+                info = self._sparse_function(f, domain, name, overload)
+            else:
+                info = super()._function_into(f, domain, name, overload)
         finally:
             self._building_function = saved
         values = list(dict.fromkeys(list(f.input) + [o for n in f.node for o in n.output if o]))
@@ -151,6 +198,9 @@ class ProtoGenC02(gp.ProtoGen):
 
     # ---- storage strings that are not in a normal form -------------------------------------------
     def _tensor_into(self, t: onnx.TensorProto, name: str | None, *, allow_external: bool = True) -> None:
+        if self._sparse("tensor"):
+            self._sparse_tensor(t, name)
+            return
         super()._tensor_into(t, name, allow_external=allow_external)
         if t.data_location != onnx.TensorProto.EXTERNAL:
             return
@@ -213,7 +263,10 @@ class ProtoGenC02(gp.ProtoGen):
 
     # ---- one value, several entries ----------------------------------------------------------------
     def _graph_into(self, g: onnx.GraphProto, *, depth: int, outer: list[str]) -> None:
-        super()._graph_into(g, depth=depth, outer=outer)
+        if self._sparse("graph"):
+            self._sparse_graph(g, depth=depth, outer=outer)
+        else:
+            super()._graph_into(g, depth=depth, outer=outer)
         self._overlap(g)
 
     def _strip_type(self, vi: onnx.ValueInfoProto) -> None:
@@ -271,3 +324,407 @@ class ProtoGenC02(gp.ProtoGen):
                     self._type_into(extra.type)
                     self.used.add("overlap_output_value_info:untyped_output")
                 with_entry.add(nm)
+
+    # ---- carriers that say almost nothing --------------------------------------------------------
+    def _sparse(self, carrier: str) -> bool:
+        """Site-level decision: build this carrier from its required fields plus at most one optional one?"""
+        if "sparse_carriers" not in self.enabled:
+            return False
+        if self.rng.random() >= self._sparse_p:
+            return False
+        self.used.add("sparse_carriers")
+        self.used.add(f"sparse:{carrier}")
+        return True
+
+    def _kept(self, carrier: str, options: list[str]) -> str:
+        keep = self.rng.choice(options)
+        self.used.add(f"sparse:{carrier}:{keep}")
+        return keep
+
+    def _one_meta(self, container, feature: str) -> None:
+        for k in self.rng.sample(gp._WORDS, self.rng.choice((1, 1, 2))):
+            e = container.add()
+            e.key = k
+            e.value = self.rng.choice(gp._TEXT)
+        self.used.add(feature)
+
+    def _value_info_into(self, vi: onnx.ValueInfoProto, name: str, *, for_tensor: onnx.TensorProto | None = None,
+                         may_be_untyped: bool = False) -> None:
+        if not self._sparse("value_info"):
+            super()._value_info_into(vi, name, for_tensor=for_tensor, may_be_untyped=may_be_untyped)
+            return
+        self.carriers.add("value_info")
+        vi.name = name
+        options = ["doc_string"] + (["metadata_props"] if self.ir_version >= 10 else [])
+        if for_tensor is not None:
+            # the entry of an initializer: the tensor's own type and shape, nothing else about the type
+            site = "value_info_of_initializer"
+            tt = vi.type.tensor_type
+            tt.elem_type = for_tensor.data_type
+            tt.shape.SetInParent()
+            for d in for_tensor.dims:
+                tt.shape.dim.add().dim_value = d
+            options.append("nothing_else")
+        elif may_be_untyped:
+            site = "value_info_io"  # graph input / output / stand-alone: the name alone is an entry
+            options += ["type", "nothing"]
+        else:
+            # an entry of a value_info list: name-only says nothing, so exactly one field is kept.
+            # 'ghost' entries (unreferenced_value_info) name no value and are dropped by canon N4:
+            # they do not count towards the floor of the deciding combination
+            site = "value_info_unreferenced" if name.startswith("ghost") else "value_info_entry"
+            options.append("type")
+        keep = self._kept(site, options)
+        if keep == "doc_string":
+            vi.doc_string = self.text()
+            self.used.add("vi_doc")
+        elif keep == "metadata_props":
+            self._one_meta(vi.metadata_props, "vi_meta")
+        elif keep == "type":
+            self._type_into(vi.type)
+
+    def _type_into(self, tp: onnx.TypeProto, *, depth: int = 0, tensor_only: bool = False, wrapped: bool = False) -> None:
+        if not self._sparse("type"):
+            super()._type_into(tp, depth=depth, tensor_only=tensor_only, wrapped=wrapped)
+            return
+        rng = self.rng
+        self.carriers.add("type")
+        wrappers = []
+        if not tensor_only and depth < 3:
+            if self.ir_version >= gp.FEATURE_MIN_IR["sequence_type"]:
+                wrappers.append("sequence_type")
+            if self.ir_version >= gp.FEATURE_MIN_IR["optional_type"]:
+                wrappers.append("optional_type")
+        if wrappers and rng.random() < 0.35:
+            w = rng.choice(wrappers)
+            self.used.add(w)
+            if depth >= 1:
+                self.used.add("nested_type")
+            keep = self._kept("type_wrapper", ["nothing", "denotation", "element_denotation", "element_shape"])
+            inner = getattr(tp, w).elem_type
+            inner.tensor_type.elem_type = gp.DTYPES[self._pick_dtype()][0]
+            if keep == "denotation":
+                tp.denotation = rng.choice(gp._TYPE_DENOTATIONS)
+                self.used.add("type_denotation")
+            elif keep == "element_denotation":
+                inner.denotation = rng.choice(gp._TYPE_DENOTATIONS)
+                self.used.add("type_denotation")
+            elif keep == "element_shape":
+                self.used.add("nested_shape")
+                self._shape_into(inner.tensor_type.shape)
+            return
+        sparse_ok = not tensor_only and self.ir_version >= gp.FEATURE_MIN_IR["sparse_type"]
+        if sparse_ok and rng.random() < 0.15:
+            leaf = tp.sparse_tensor_type
+            self.used.add("sparse_type")
+        else:
+            leaf = tp.tensor_type
+        leaf.elem_type = gp.DTYPES[self._pick_dtype()][0]
+        keep = self._kept("type", ["nothing", "denotation", "rank0", "dim_value", "dim_param", "dim_denotation",
+                                   "dim_unknown"])
+        if wrapped and keep not in ("nothing", "denotation"):
+            self.used.add("nested_shape")
+        if keep == "nothing":
+            self.used.add("no_shape")
+        elif keep == "denotation":
+            tp.denotation = rng.choice(gp._TYPE_DENOTATIONS)
+            self.used.update(("type_denotation", "no_shape"))
+        elif keep == "rank0":
+            leaf.shape.SetInParent()
+            self.used.add("scalar_shape")
+        else:
+            d = leaf.shape.dim.add()
+            if keep == "dim_value":
+                d.dim_value = rng.choice((0, 0, 1, 7))  # 0 is a dimension, not "no dimension"
+            elif keep == "dim_param":
+                d.dim_param = rng.choice(gp._DIM_PARAMS)
+                self.used.add("dim_param")
+            elif keep == "dim_denotation":
+                d.denotation = rng.choice(gp._DIM_DENOTATIONS)
+                self.used.update(("dim_denotation", "dim_unknown"))
+            else:
+                self.used.add("dim_unknown")
+
+    def _sparse_tensor(self, t: onnx.TensorProto, name: str | None) -> None:
+        rng = self.rng
+        self.carriers.add("tensor")
+        if name:
+            t.name = name  # the site requires one
+        dt_name = self._pick_dtype()
+        enum, _min_ir, bits, _field, _group = gp.DTYPES[dt_name]
+        t.data_type = enum
+        keep = self._kept("tensor", ["nothing", "dims", "doc_string"] + (["metadata_props"] if self.ir_version >= 10 else []))
+        dims: list[int] = []
+        if keep == "dims":
+            dims = [rng.choice((0, 1, 2, 3))]
+            if dims == [0]:
+                self.used.add("empty_tensor")
+        else:
+            self.used.add("scalar_tensor")
+        t.dims.extend(dims)
+        n = dims[0] if dims else 1
+        if keep == "doc_string":
+            t.doc_string = self.text()
+            self.used.add("tensor_doc")
+        elif keep == "metadata_props":
+            self._one_meta(t.metadata_props, "tensor_meta")
+        if dt_name == "STRING":
+            t.string_data.extend(rng.choice(gp._TEXT).encode("utf-8") for _ in range(n))
+        elif n == 0:
+            pass  # no elements: no storage field at all
+        elif rng.random() < 0.5:
+            self.used.add("typed_storage")
+            self._typed_payload(t, dt_name, n)
+        else:
+            self.used.add("raw_storage")
+            t.raw_data = rng.randbytes((n * bits + 7) // 8)
+            if dt_name == "BOOL":
+                t.raw_data = bytes(b & 1 for b in t.raw_data)
+
+    def _attribute_into(self, a: onnx.AttributeProto, name: str, kind: str, *, depth: int, visible: list[str]) -> None:
+        if not self._sparse("attribute"):
+            super()._attribute_into(a, name, kind, depth=depth, visible=visible)
+            return
+        self.carriers.add("attribute")
+        self.used.add(kind)
+        self.used.add(f"sparse:attribute:{kind}")
+        a.name = name
+        a.type = gp.ATTR_KINDS[kind]
+        if self.rng.random() < 0.3:
+            a.doc_string = self.text()
+            self.used.add("attr_doc")
+        # the zero / empty value of the kind
+        if kind == "attr_float":
+            a.f = 0.0
+        elif kind == "attr_int":
+            a.i = 0
+        elif kind == "attr_string":
+            a.s = b""
+        elif kind in ("attr_floats", "attr_ints", "attr_strings"):
+            self.used.add("attr_empty_lists")
+        elif kind == "attr_tensor":
+            self._tensor_into(a.t, None)
+        elif kind == "attr_tensors":
+            self._tensor_into(a.tensors.add(), None)
+        elif kind == "attr_graph":
+            self._graph_into(a.g, depth=depth + 1, outer=visible)
+        elif kind == "attr_graphs":
+            self._graph_into(a.graphs.add(), depth=depth + 1, outer=visible)
+        elif kind == "attr_type_proto":
+            self._type_into(a.tp)
+        elif kind == "attr_type_protos":
+            self._type_into(a.type_protos.add())
+        else:  # pragma: no cover
+            raise AssertionError(kind)
+
+    def _node_into(self, n: onnx.NodeProto, *, visible: list[str], depth: int) -> list[str]:
+        if not self._sparse("node"):
+            return super()._node_into(n, visible=visible, depth=depth)
+        rng = self.rng
+        self.carriers.add("node")
+        n.op_type = rng.choice(gp._OPS)
+        outs = [self.name()]
+        n.output.extend(outs)
+        options = ["nothing", "name", "domain", "doc_string", "attribute"]
+        if self.ir_version >= 10:
+            options.append("metadata_props")
+        if visible:
+            options.append("input")
+        if self._func_attrs:
+            options.append("ref_attr")
+        keep = self._kept("node", options)
+        if keep == "domain":
+            d = rng.choice(("com.example", "vendor.ops"))
+            self._domains.setdefault(d, rng.randint(1, 5))
+            n.domain = d
+            self.used.add("custom_domain")
+        else:
+            self._domains.setdefault("", rng.randint(13, 23))
+        if keep == "name":
+            n.name = self.name("node")
+            self.used.add("node_name")
+        elif keep == "doc_string":
+            n.doc_string = self.text()
+            self.used.add("node_doc")
+        elif keep == "metadata_props":
+            self._one_meta(n.metadata_props, "node_meta")
+        elif keep == "input":
+            n.input.append(rng.choice(visible))
+        elif keep == "attribute":
+            kinds = self._attr_kinds(depth) or ["attr_int"]
+            self._attribute_into(n.attribute.add(), rng.choice(gp._WORDS), rng.choice(kinds), depth=depth, visible=visible)
+        elif keep == "ref_attr":
+            ref, ty = rng.choice(self._func_attrs)
+            a = n.attribute.add()
+            self.carriers.add("attribute")
+            a.name = rng.choice(gp._WORDS)
+            a.ref_attr_name = ref
+            a.type = ty
+            self.used.add("ref_attrs")
+        return outs
+
+    def _sparse_graph(self, g: onnx.GraphProto, *, depth: int, outer: list[str]) -> None:
+        rng = self.rng
+        self.carriers.add("graph")
+        g.name = self.name("graph")
+        options = ["nothing", "doc_string", "initializer", "value_info"]
+        if self.ir_version >= 10:
+            options.append("metadata_props")
+        if self.ir_version >= gp.FEATURE_MIN_IR["quant_annotation"]:
+            options.append("quantization_annotation")
+        keep = self._kept("graph", options)
+        body = "two_nodes" if keep == "value_info" else self._kept("graph_body", ["no_node", "source_node", "one_node"])
+        visible = list(outer) if (outer and "captures" in self.enabled) else []
+        local: list[str] = []
+        if body != "source_node":
+            nm = self.name("in")
+            self._value_info_into(g.input.add(), nm, may_be_untyped=True)
+            local.append(nm)
+        if keep == "doc_string":
+            g.doc_string = self.text()
+            self.used.add("graph_doc")
+        elif keep == "metadata_props":
+            self._one_meta(g.metadata_props, "graph_meta")
+        elif keep == "initializer":
+            self.used.add("initializers")
+            nm = self.name("w")
+            t = g.initializer.add()
+            self._tensor_into(t, nm)
+            if self.ir_version < 4:  # IR 3 requires initializers to be graph inputs
+                self._value_info_into(g.input.add(), nm, for_tensor=t)
+                self.used.add("init_as_input")
+            local.append(nm)
+        annotatable = list(local)
+        if body == "no_node":
+            g.output.add().CopyFrom(g.input[0])  # the same value: identical declaration
+            self.used.add("passthrough_output")
+        else:
+            feed = [] if body == "source_node" else visible + local
+            if feed and visible:
+                self.used.add("captures")
+            outs = self._node_into(g.node.add(), visible=feed, depth=depth)
+            annotatable += outs
+            if body == "two_nodes":
+                mid = outs
+                outs = self._node_into(g.node.add(), visible=list(mid), depth=depth)
+                self.used.add("value_info")
+                self._value_info_into(g.value_info.add(), rng.choice(mid))
+            self._value_info_into(g.output.add(), outs[0], may_be_untyped=True)
+        if keep == "quantization_annotation":
+            self.used.add("quant_annotation")
+            ann = g.quantization_annotation.add()
+            ann.tensor_name = rng.choice(annotatable)
+            e = ann.quant_parameter_tensor_names.add()
+            e.key = rng.choice(("SCALE_TENSOR", "ZERO_POINT_TENSOR", "AXIS_HINT"))
+            e.value = f"{ann.tensor_name}_{e.key.lower()}"
+
+    def _sparse_function(self, f: onnx.FunctionProto, domain: str, name: str, overload: str) -> dict:
+        rng = self.rng
+        self.carriers.add("function")
+        f.name = name
+        if domain:
+            f.domain = domain
+        if overload:
+            f.overload = overload
+            self.used.add("overloads")
+        options = ["nothing", "doc_string", "input", "attribute"]
+        if self.ir_version >= gp.FEATURE_MIN_IR["func_attr_defaults"]:
+            options.append("attribute_proto")
+        if self.ir_version >= 10:
+            options += ["metadata_props", "value_info", "value_info"]
+        keep = self._kept("function", options)
+        inputs = [self.name("fi")] if keep == "input" or (keep == "value_info" and rng.random() < 0.5) else []
+        f.input.extend(inputs)
+        func_attrs: list[tuple[str, int]] = []
+        if keep == "doc_string":
+            f.doc_string = self.text()
+            self.used.add("func_doc")
+        elif keep == "metadata_props":
+            self._one_meta(f.metadata_props, "func_meta")
+        elif keep == "attribute":
+            f.attribute.append("axis")
+            func_attrs.append(("axis", rng.choice(list(gp.ATTR_KINDS.values()))))
+            self.used.add("func_attr_params")
+        elif keep == "attribute_proto":
+            kind = rng.choice(self._attr_kinds(self.max_depth) or ["attr_int"])
+            self._attribute_into(f.attribute_proto.add(), "axis", kind, depth=self.max_depth, visible=[])
+            func_attrs.append(("axis", gp.ATTR_KINDS[kind]))
+            self.used.add("func_attr_defaults")
+        saved = (self._func_attrs, self._domains)
+        self._func_attrs = func_attrs or None
+        self._domains = {}
+        try:
+            outs = self._node_into(f.node.add(), visible=list(inputs), depth=0)
+            domains = self._domains
+        finally:
+            self._func_attrs, self._domains = saved
+        f.output.append(outs[0])
+        domains.setdefault("", rng.randint(13, 23))
+        self._opsets_into(f.opset_import, domains)
+        if keep == "value_info":
+            self.used.add("func_value_info")
+            self._value_info_into(f.value_info.add(), rng.choice(inputs + outs))
+        return {"domain": domain, "name": name, "overload": overload, "n_in": len(inputs), "n_out": 1}
+
+    def model(self) -> onnx.ModelProto:
+        if not self._sparse("model"):
+            return super().model()
+        rng = self.rng
+        m = onnx.ModelProto()
+        self.carriers.add("model")
+        m.ir_version = self.ir_version
+        options = ["nothing", "producer_name", "producer_version", "domain", "model_version", "doc_string",
+                   "metadata_props"]
+        if self.ir_version >= gp.FEATURE_MIN_IR["functions"]:
+            options += ["functions", "functions"]
+        if self.ir_version >= gp.FEATURE_MIN_IR["device_config"]:
+            options.append("configuration")
+        keep = self._kept("model", options)
+        if keep == "producer_name":
+            m.producer_name = "vfpy"
+        elif keep == "producer_version":
+            m.producer_version = "0"
+        elif keep == "domain":
+            m.domain = "ai.vision"
+        elif keep == "model_version":
+            m.model_version = rng.choice((1, 2**40))
+        elif keep == "doc_string":
+            m.doc_string = self.text()
+            self.used.add("model_doc")
+        elif keep == "metadata_props":
+            self._one_meta(m.metadata_props, "model_meta")
+        elif keep == "configuration":
+            c = m.configuration.add()
+            c.name = "mesh2"
+            c.num_devices = rng.randint(1, 4)
+            self._configs.append(c.name)
+            self.used.add("device_config")
+        elif keep == "functions":
+            d = rng.choice(("custom.fn", "local", "com.example"))
+            ov = "a" if self.ir_version >= 10 and rng.random() < 0.3 else ""
+            info = self._function_into(m.functions.add(), d, "Fn0", ov)
+            self._functions.append(info)
+            self._domains.setdefault(d, 1)
+            self.used.add("functions")
+        self._graph_into(m.graph, depth=0, outer=[])
+        self._domains.setdefault("", rng.randint(13, 23))
+        self._opsets_into(m.opset_import, self._domains)
+        return m
+
+    def build(self, kind: str):
+        if kind in ("TypeProto", "ValueInfoProto") and "sparse_carriers" in self.enabled and self.rng.random() < 0.06:
+            # a type that has a denotation and no value case: rejected by the ONNX checker, the statement
+            # is silent on it - generated to be counted, never judged
+            self.report_only = "type_without_value_case"
+            self.used.add("sparse:type:denotation_without_value_case")
+            tp = onnx.TypeProto()
+            tp.denotation = self.rng.choice(gp._TYPE_DENOTATIONS)
+            self.carriers.add("type")
+            if kind == "TypeProto":
+                return tp
+            vi = onnx.ValueInfoProto()
+            vi.name = self.name()
+            vi.type.CopyFrom(tp)
+            self.carriers.add("value_info")
+            return vi
+        return super().build(kind)
